@@ -8,6 +8,8 @@ pub mod c04;
 pub mod c05;
 pub mod c06;
 pub mod c07;
+pub mod c08;
+pub mod c13;
 
 pub fn run(prop: &str, ctx: &mut Ctx) -> bool {
     match prop {
@@ -18,6 +20,8 @@ pub fn run(prop: &str, ctx: &mut Ctx) -> bool {
         "C05" => c05::run(ctx),
         "C06" => c06::run(ctx),
         "C07" => c07::run(ctx),
+        "C08" => c08::run(ctx),
+        "C13" => c13::run(ctx),
         _ => return false,
     }
     true
